@@ -305,8 +305,8 @@ def native_cases(lib_fnv):
     ok_ck = "%016x" % lib_fnv
     C = []
 
-    def pol(caps=None, ck=None, ver=None):
-        return {"caps": caps or [], "checksum": ck, "version": ver}
+    def pol(caps=None, ck=None, ver=None, key=None, raw=""):
+        return {"caps": caps or [], "checksum": ck, "version": ver, "key": key, "raw": raw}
 
     def coq_pol(p, model_ck):
         caps = "[" + "; ".join('"%s"' % c for c in p["caps"]) + "]"
@@ -316,7 +316,7 @@ def native_cases(lib_fnv):
 
     def add(name, flags, route, p, declares, embedded=False, ck_ok=True, imp="sentry", alias=None):
         fl = "[" + "; ".join('"%s"' % x for x in flags) + "]"
-        man = "None" if p is None else f'(Some [("sentry", {coq_pol(p, ck_ok)})])'
+        man = "None" if p is None else f'(Some [("{p.get("key") or "sentry"}", {coq_pol(p, ck_ok)})])'
         r = {"source": "RSource", "aasm": "RAasm", "avbc-plain": "RAvbc", "avbc-bundled": "RAvbc"}[route]
         project, emb = (man, "None") if not embedded else ("None", man)
         path = "[" + "; ".join('"%s"' % seg for seg in imp.split(".")) + "]"
@@ -348,6 +348,20 @@ def native_cases(lib_fnv):
         add(f"{tag}-checksum-wrong", [], "source", pol([], "0000000000000000"), "different-checksum", ck_ok=False, imp=imp, alias=alias)
         add(f"{tag}-version-unsatisfied", [], "source", pol([], None, (9, 0, 0)), "unsatisfied-version", imp=imp, alias=alias)
         add(f"{tag}-all-ok", ["--allow-caps=danger"], "source", pol(["danger"], ok_ck, (0, 1, 0)), None, imp=imp, alias=alias)
+    # round 4: the VM's own capability bits must govern native modules that declare fs / net / exec
+    for capn, flagsets in (("fs", ([], ["-ae.allow-fs=false"], ["--ae-allow-net=true"])), ("net", ([],)), ("exec", (["--ae-allow-fs=true"],))):
+        for fl in flagsets:
+            add(f"std-cap-{capn}-off-{'-'.join(x.strip('-').replace('=', '_') for x in fl) or 'default'}", list(fl), "source", pol([capn]), "std-capability-off")
+    add("std-cap-fs-on-by-bit", ["--ae-allow-fs=true"], "source", pol(["fs"]), None)
+    add("std-cap-fs-on-by-list", ["--allow-caps=fs"], "source", pol(["fs"]), None)
+    add("std-cap-fs-trusted", ["--ae-trusted=true"], "source", pol(["fs", "exec"]), None)
+    # round 4: a manifest entry keyed by the dotted import path (the resolver's key)
+    add("dotted-key-caps-denied", ["--deny-caps=danger"], "source", pol(["danger"], key="libs.sentry"), "dotted-key-denied-capability", imp="libs.sentry")
+    add("dotted-key-checksum-wrong", [], "source", pol([], "0000000000000000", key="libs.sentry"), "dotted-key-different-checksum", ck_ok=False, imp="libs.sentry", alias="dk")
+    add("dotted-key-allowed", ["--allow-caps=danger"], "source", pol(["danger"], key="libs.sentry"), None, imp="libs.sentry")
+    # round 4: a manifest that does not deserialize must not mean "no policy"
+    add("unparsable-manifest-caps-denied", ["--deny-caps=danger"], "source", pol(["danger"], raw="checksum = 12345\n"), "unparsable-manifest")
+    add("unparsable-manifest-aasm", ["--deny-caps=danger"], "aasm", pol(["danger"], raw="required_version = 7\n"), "unparsable-manifest")
     add("sentry-alias-version-unsatisfied", [], "source", pol([], None, (9, 0, 0)), "unsatisfied-version", alias="sn")
     add("aasm-caps-denied", ["--deny-caps=danger"], "aasm", pol(["danger"]), "denied-capability")
     add("aasm-checksum-wrong", [], "aasm", pol([], "0000000000000000"), "different-checksum", ck_ok=False)
@@ -361,13 +375,15 @@ def native_cases(lib_fnv):
 
 
 def manifest_toml(p, bundle=False):
-    t = "[module.sentry]\nkind = \"native\"\n"
+    key = p.get("key") or "sentry"
+    t = ("[module.%s]\n" % (key if "." not in key else '"%s"' % key)) + "kind = \"native\"\n"
     if p["caps"]:
         t += "capabilities = [" + ", ".join('"%s"' % c for c in p["caps"]) + "]\n"
     if p["checksum"]:
         t += f"checksum = \"{p['checksum']}\"\n"
     if p["version"]:
         t += "required_version = \">=%d.%d.%d\"\n" % p["version"]
+    t += p.get("raw", "")
     if bundle:
         t += "\n[build]\nbundle_native_modules = true\n"
     return t
@@ -420,7 +436,8 @@ def run_native(ctx, cli, lib, root, stats):
         loaded, called = os.path.exists(ctor), os.path.exists(call)
         refusal = {"capability-denied": 1, "checksum-mismatch": 2, "version-mismatch": 4}.get(cls, 0 if cls == "ok" else 9)
         c.update({"class": cls, "loaded": loaded, "called": called, "output": out[-400:]})
-        obs.append((c["query"], f"[{refusal}; {int(loaded)}; {int(called)}]%N"))
+        if c["declares"] != "unparsable-manifest":
+            obs.append((c["query"], f"[{refusal}; {int(loaded)}; {int(called)}]%N"))
         stats["native_runs"] += 1
         stats["distinct"].add(("native", c["name"]))
         # direct oracle: what the statement forbids
